@@ -9,7 +9,7 @@ cells inside the terminal size are ever compared (`ScreenEq`).
 
 `display` is the specification: what a terminal shows after the surface has been painted from scratch
 on a blank terminal — every cell shows its own character in its own face, the cell to the right of a
-displayed wide character shows that character's right half, the area of an image is blank in the
+displayed wide character shows that character's right half, the area of an image is erased (`blankOf`) in the
 image cell's face and carries one placement at the image cell.
 -/
 namespace SurfModel.Screen
@@ -36,12 +36,16 @@ structure Params where
   width : Nat → Nat
   size : Nat → Nat × Nat
   raster : Nat → Nat → Nat
+  /-- the face has no attribute that is visible on a blank cell (underline, strike, reverse) -/
+  plain : Nat → Bool
 
 /-- what one terminal cell shows -/
 inductive SCell where
   | glyph (ch : Nat) (face : Nat)
   | cont
   | orphan
+  /-- erased while `face` was current: shows the background of `face` and nothing else -/
+  | erased (face : Nat)
 deriving DecidableEq, Repr, Inhabited
 
 /-- the commands `TerminalRenderer` issues (`TerminalCommand::{Face, CursorTo, Char, EraseChars, Image, ImageErase}`) -/
@@ -75,6 +79,10 @@ def fillRow (g : Nat → Nat → SCell) (r a b : Nat) (v : SCell) : Nat → Nat 
 def setCell (g : Nat → Nat → SCell) (r c : Nat) (v : SCell) : Nat → Nat → SCell := fun r' c' =>
   if r' = r ∧ c' = c then v else g r' c'
 
+/-- What an erased cell shows.  Erasing paints only the background; for a face without attributes
+that are visible on a blank cell this cannot be told from a space printed in that face. -/
+def blankOf (P : Params) (f : Nat) : SCell := if P.plain f then .glyph 32 f else .erased f
+
 def exec (P : Params) (s : Screen) : Cmd → Screen
   | .face f => { s with face := f }
   | .cursorTo r c => { s with cur := (r, c) }
@@ -89,11 +97,12 @@ def exec (P : Params) (s : Screen) : Cmd → Screen
       { s with grid := setCell (clobber s.grid r c (c + 1)) r c (.glyph ch s.face), cur := (r, c + 1) }
     else s
   | .erase n =>
-    -- ECH: a parameter of 0 means 1; the cursor does not move
-    let n := max n 1
+    -- ECH; the cursor does not move.  `EraseChars(0)` is not sent to the terminal at all
+    -- (`CSI 0 X` would erase one cell), so it changes nothing
+    if n = 0 then s else
     let r := s.cur.1
     let c := s.cur.2
-    { s with grid := fillRow (clobber s.grid r c (c + n)) r c (c + n) (.glyph 32 s.face) }
+    { s with grid := fillRow (clobber s.grid r c (c + n)) r c (c + n) (blankOf P s.face) }
   | .image i r c => { s with place := fun r' c' => if r' = r ∧ c' = c then some i else s.place r' c' }
   | .imageErase i r c =>
     { s with place := fun r' c' => if r' = r ∧ c' = c ∧ s.place r c = some i then none else s.place r' c' }
@@ -122,10 +131,10 @@ def imgOf (P : Params) (c : Cell) : Option Nat :=
   | .gly g => some (P.raster c.face g)
   | .chr _ => none
 
-/-- cell `(r, c)` is the right half of the wide character displayed at `(r, c-1)` -/
-def shadowed (P : Params) (s : Surface) (r : Nat) : Nat → Bool
+/-- auxiliary (used in the proofs): the shadow rule when images are ignored -/
+def shadowedRaw (P : Params) (s : Surface) (r : Nat) : Nat → Bool
   | 0 => false
-  | c + 1 => isWide P (s r c) && !shadowed P s r c
+  | c + 1 => isWide P (s r c) && !shadowedRaw P s r c
 
 /-- the area of the image cell at `q` contains `p` -/
 def covers (P : Params) (s : Surface) (q p : Nat × Nat) : Bool :=
@@ -142,11 +151,18 @@ def allPos (H W : Nat) : List (Nat × Nat) :=
 def coverOf (P : Params) (H W : Nat) (s : Surface) (p : Nat × Nat) : Option (Nat × Nat) :=
   (allPos H W).reverse.find? fun q => covers P s q p
 
+/-- Cell `(r, c)` is the right half of the wide character DISPLAYED at `(r, c-1)`: that cell holds a
+wide character, is not itself such a right half and is not hidden under an image (a character hidden
+under an image is not displayed and casts no shadow). -/
+def shadowed (P : Params) (H W : Nat) (s : Surface) (r : Nat) : Nat → Bool
+  | 0 => false
+  | c + 1 => isWide P (s r c) && !shadowed P H W s r c && (coverOf P H W s (r, c)).isNone
+
 def displayCell (P : Params) (H W : Nat) (s : Surface) (r c : Nat) : SCell :=
   match coverOf P H W s (r, c) with
-  | some q => .glyph 32 (s q.1 q.2).face
+  | some q => blankOf P (s q.1 q.2).face
   | none =>
-    if shadowed P s r c then .cont
+    if shadowed P H W s r c then .cont
     else match (s r c).kind with
       | .chr ch => .glyph ch (s r c).face
       | _ => .orphan
